@@ -1,5 +1,3 @@
 package main
 
-func genCpuTables(l *loader) {}
-func genAsm(l *loader)       {}
 func genGlobals(l *loader)   {}
